@@ -1,7 +1,6 @@
 package checks
 
 import (
-	"encoding/json"
 	"fmt"
 
 	"github.com/dtn7/dtn7-go/verif/ev"
@@ -10,7 +9,7 @@ import (
 )
 
 func init() {
-	All["C18"] = Check{Level: "model_checking", Run: runC18, Replay: func(kind string, c json.RawMessage) (string, bool) { return nhReplayCmd(c) }}
+	All["C18"] = Check{Level: "model_checking", Run: runC18, Replay: nhReplayAny}
 	nhChecks["c18"] = c18Def
 }
 
@@ -126,5 +125,17 @@ func runC18(r *ev.Run, thorough bool) int {
 	}
 	return nhRunPlans(r, "C18", "c18", plans,
 		fmt.Sprintf("spray-and-wait and binary spray with budgets L in %v, relays %v plus the destination: BFS over submission, reception (binary: carrying L copies), peers up/down, send outcome switches and retry ticks from the initial state and from a root with a failing and a working relay; in every state: successful transmissions to non-destination peers <= L-1, copies kept + copies given away (spray: successes; binary: sum of announced copies parsed from the transmitted bundles) = copies held, a single-copy holder sends only to the destination", ls, peers),
-		[]string{"the retained copy count is read through a read-only bridge into the algorithm's table"})
+		[]string{"the retained copy count is read through a read-only bridge into the algorithm's table", "E3: transmissions to 2 (thorough: 3) relays fail at the same moment: all schedules of Core.forward's per-peer goroutines up to a preemption bound (schedule points: the algorithm's RWMutex, store operations, the mock senders)"},
+		func() int {
+			bound, budget := 2, 1500
+			if thorough {
+				bound, budget = 3, 60000
+			}
+			n := nhSchedRun(r, "C18", nhConcArg{Algo: "spray", Mode: "failures", Peers: 2, L: 4}, bound, budget)
+			n += nhSchedRun(r, "C18", nhConcArg{Algo: "binary_spray", Mode: "failures", Peers: 2, L: 4}, bound, budget)
+			if thorough {
+				n += nhSchedRun(r, "C18", nhConcArg{Algo: "spray", Mode: "failures", Peers: 3, L: 4}, 2, budget)
+			}
+			return n
+		})
 }
